@@ -141,6 +141,8 @@ class Ev:
 
 
 class Outcome:
+    local = None                    # symbolic values of the plain locals assigned on the executed path (set by run_block)
+
     def __init__(self, kind, stmt=None, value=None, executed=None, why=''):
         self.kind = kind            # return | raise | continue | break | fall | unknown | wouldraise
         self.stmt = stmt
@@ -156,6 +158,13 @@ _NONE = ast.Constant(value=None)
 
 
 def run_block(stmts, ev: Ev, ex: Expander, executed=None, local=None) -> Outcome:
+    local = {} if local is None else local
+    out = _run_block(stmts, ev, ex, executed, local)
+    out.local = local
+    return out
+
+
+def _run_block(stmts, ev: Ev, ex: Expander, executed=None, local=None) -> Outcome:
     """abstractly execute a loop-free statement list; simple statements are collected in `executed`.  Plain locals
     assigned on the executed path (`available = 0` in one arm of an if/elif/else, `return available` at the single
     exit) are remembered and substituted into later tests and the returned expression."""
@@ -169,7 +178,7 @@ def run_block(stmts, ev: Ev, ex: Expander, executed=None, local=None) -> Outcome
         for st in stmts:
             if isinstance(st, ast.If):
                 t = ev.truth(xp(st.test))
-                r = run_block(st.body if t else st.orelse, ev, ex, executed, local)
+                r = _run_block(st.body if t else st.orelse, ev, ex, executed, local)
                 if r.kind != 'fall':
                     return r
             elif isinstance(st, ast.Return):
@@ -187,6 +196,11 @@ def run_block(stmts, ev: Ev, ex: Expander, executed=None, local=None) -> Outcome
                     local[st.targets[0].id] = xp(st.value)
                 elif isinstance(st, ast.AnnAssign) and isinstance(st.target, ast.Name) and st.value is not None:
                     local[st.target.id] = xp(st.value)
+                elif isinstance(st, ast.AugAssign) and isinstance(st.target, ast.Name):
+                    # `x op= E`: x is now `<x before> op E` (x before = its tracked value, else its value on entry)
+                    before = local.get(st.target.id, ast.Name(id=st.target.id, ctx=ast.Load()))
+                    local[st.target.id] = ast.fix_missing_locations(ast.copy_location(
+                        ast.BinOp(left=copy.deepcopy(before), op=st.op, right=xp(st.value)), st))
                 else:
                     for t in (st.targets if isinstance(st, ast.Assign) else [getattr(st, 'target', None)]):
                         for n in (ast.walk(t) if t is not None else []):
